@@ -216,7 +216,9 @@ def _tags(e: ast.AST, env: dict[str, frozenset]) -> frozenset:
         if d == "os.path.normpath":
             return a | {"norm"}
         if d == "os.path.realpath":
-            return frozenset({"abs", "norm", "real"})
+            # resolving symlinks AFTER `..` was collapsed lexically resolves another path than the one the OS opens
+            # (`link/../x` names the parent of the link's target, normpath makes it `x`)
+            return frozenset({"abs", "norm", "real"}) | (frozenset({"prenorm"}) if a & {"norm", "prenorm"} else frozenset())
         if d in ("os.path.normcase", "os.fspath", "str"):
             return a
         return frozenset()
@@ -293,6 +295,13 @@ def rule_r2(ctx):
                 continue
             # the test must be negated and (optionally) joined by `and` with an inequality to the bare base
             shape_ok = _rejecting_shape(test, c)
+            if "real" in subj and "prenorm" in subj:
+                ctx.check("R2", inst, False, f, n,
+                          f"`{norm(c.func.value)}` is the real path of a location that was normalised lexically first: `shared/../secret.bin` with `shared` a symlinked "
+                          "directory is collapsed to `secret.bin` before the symlink is resolved, so the path that is checked (and whose link count is read) is not the "
+                          "path the read opens - a symlinked directory followed by `..` leads outside the base directory unnoticed",
+                          how="tag analysis: the argument of os.path.realpath carries no normpath", construct="realpath of a lexically normalised path")
+                continue
             if {"abs", "norm"} <= subj and {"abs", "norm"} <= pref and ("real" in subj) == ("real" in pref) and shape_ok:
                 kind = "real" if "real" in subj else "string"
                 kinds[kind] += 1
@@ -322,7 +331,7 @@ def rule_r2(ctx):
                 if isinstance(s_, ast.Assign) and isinstance(s_.targets[0], ast.Name) and s_.targets[0].id == v and isinstance(s_.value, ast.Attribute) and s_.value.attr == "st_nlink":
                     call = s_.value.value
                     if isinstance(call, ast.Call) and dotted_of(call.func) in ("os.stat", "os.lstat") and call.args:
-                        src_ok = "real" in _tags(call.args[0], env)
+                        src_ok = "real" in _tags(call.args[0], env) and "prenorm" not in _tags(call.args[0], env)
             kinds["nlink"] += 1 if (ok and src_ok) else 0
             ctx.check("R2", "hard-link test on st_nlink", ok and src_ok, f, n,
                       f"hard-link rejection `{t}` is not `st_nlink > 1` of the fully resolved path",
